@@ -71,6 +71,9 @@ func (r *decompressor) Reset(under io.Reader, _ []byte) error {
 	r.peekSize = 0
 	r.eof = false
 	r.err = nil
+	// forget undelivered output and the history of the previous stream
+	r.readPos = 0
+	r.writePos = 0
 	r.state.reset()
 	return nil
 }
